@@ -123,10 +123,7 @@ func (rn *runner) histRound(mode string, procs, gor, iters int, seed uint64) boo
 }
 
 func (rn *runner) histPhase() {
-	rounds, procs, gor, iters := 4, 5, 3, 100
-	if rn.f.Tier != "quick" {
-		rounds, procs, gor, iters = 10, 6, 4, 300
-	}
+	rounds, procs, gor, iters := rn.tierSizes("HIST", [4]int{4, 5, 3, 100}, [4]int{10, 6, 4, 300})
 	for r := 0; r < rounds; r++ {
 		if rn.histRound("mixed", procs, gor, iters, rn.rng.Uint64()%1000000) {
 			break
@@ -135,6 +132,111 @@ func (rn *runner) histPhase() {
 	for r := 0; r < rounds; r++ {
 		if rn.histRound("incr", procs, gor+1, iters, rn.rng.Uint64()%1000000) {
 			break
+		}
+	}
+}
+
+// ---------------------------------------------------------------- kernel flock semantics
+
+func (rn *runner) kernelModelRound(procs, gor, iters, npaths int, seed uint64) bool {
+	st, findings, viols, err := runFlockReplay(rn.self, rn.f.Work, rn.m, procs, gor, iters, npaths, seed)
+	if err != nil {
+		rn.res.Notes = append(rn.res.Notes, "traced stress round could not be run: "+err.Error())
+		return false
+	}
+	rn.res.Evaluations += st.grants
+	rn.res.Case(fmt.Sprintf("kmodel %d %d %d %d %d", procs, gor, iters, npaths, seed), st.waits > 0)
+	rn.res.Distribution["kmodel:grants-replayed"] += st.grants
+	rn.res.Distribution["kmodel:releases"] += st.releases
+	rn.res.Distribution["kmodel:waits>=5ms"] += st.waits
+	rn.res.Distribution["kmodel:waits-explained"] += st.waitsExplained
+	in := map[string]string{"kind": "kmodel", "procs": fmt.Sprint(procs), "goroutines": fmt.Sprint(gor),
+		"iters": fmt.Sprint(iters), "paths": fmt.Sprint(npaths), "seed": fmt.Sprint(seed)}
+	for _, f := range findings {
+		rn.violate("correspondence", "kernel-flock-model:"+f.Key, "kmodel "+f.Key, f.Detail, f.Detail, "", in)
+	}
+	for _, v := range viols {
+		rn.violate("impl-violation", "overlap-witness:traced", "stress-traced", v, v, "", in)
+	}
+	return len(findings)+len(viols) > 0
+}
+
+func (rn *runner) kernelModelPhase() {
+	if !rn.st {
+		return
+	}
+	rounds, procs, gor, iters := rn.tierSizes("KMODEL", [4]int{3, 5, 3, 60}, [4]int{8, 8, 4, 250})
+	for r := 0; r < rounds; r++ {
+		if rn.kernelModelRound(procs, gor, iters, 1+r%2, rn.rng.Uint64()%1000000) {
+			break
+		}
+	}
+}
+
+// ---------------------------------------------------------------- Mutex corners
+
+func (rn *runner) mutexPhase() {
+	cmd, rd, in, err := startHelper(rn.self, nil, "mutexmisc", rn.f.Work)
+	if err != nil {
+		rn.res.Notes = append(rn.res.Notes, "mutexmisc helper could not be started: "+err.Error())
+		return
+	}
+	defer func() { in.Close(); cmd.Wait() }()
+	got := map[string]string{}
+	for i := 0; i < 6; i++ {
+		l, ok := waitLine(rd, capWait)
+		if !ok || strings.HasPrefix(l, "EOF") {
+			break
+		}
+		f := strings.SplitN(l, " ", 2)
+		if len(f) == 2 {
+			got[f[0]] = f[1]
+		}
+	}
+	in1 := func(name string) map[string]string { return map[string]string{"kind": "mutexmisc", "case": name} }
+	// direct oracles: what the documentation of Mutex promises
+	want := map[string]func(string) bool{
+		"zero-lock": func(s string) bool { return strings.HasPrefix(s, "PANIC ") },
+		"at-empty":  func(s string) bool { return strings.HasPrefix(s, "PANIC ") },
+		"absent":    func(s string) bool { return s == "ok exists=true len=0" },
+		"relock":    func(s string) bool { return s == "ok" },
+		"nodir":     func(s string) bool { return s == "err" },
+		"string":    func(s string) bool { return !strings.HasPrefix(s, "PANIC") },
+	}
+	for name, ok := range want {
+		rn.res.Case("mutexmisc "+name, true)
+		rn.res.Count("mutexmisc:" + name)
+		if !ok(got[name]) {
+			rn.violate("impl-violation", "mutex:"+name, "mutexmisc "+name,
+				"Mutex corner case "+name+": observed "+got[name], got[name], "", in1(name))
+		}
+	}
+	if rn.m == nil {
+		return
+	}
+	// correspondence with the model (panic values and String come from regenerated constants)
+	mf := strings.Fields(rn.m.Ask1("mutexfacts"))
+	if len(mf) == 4 {
+		model := map[string]string{"zero-lock": "locked", "at-empty": "ok"}
+		if mf[0] == "lockpanic" {
+			model["zero-lock"] = "PANIC " + mf[1]
+		}
+		if mf[2] == "atpanic" {
+			model["at-empty"] = "PANIC " + mf[3]
+		}
+		p := rn.f.Work + "/mu-fresh"
+		model["string"] = rn.m.Ask1("mutexstring " + common.Hex([]byte(p)))
+		mo := strings.Fields(rn.m.Ask1("ops mutex - absent"))
+		if len(mo) > 2 && mo[0] == "ok" && mo[1] == "-" {
+			model["absent"] = "ok exists=true len=0"
+		} else {
+			model["absent"] = strings.Join(mo, " ")
+		}
+		for name, mv := range model {
+			if got[name] != mv {
+				rn.violate("correspondence", "mutex:"+name, "mutexmisc-model "+name,
+					"Mutex corner case differs from the model", got[name], mv, in1(name))
+			}
 		}
 	}
 }
@@ -172,6 +274,14 @@ func (rn *runner) runInput(in map[string]string) {
 		}
 	case "scenario":
 		rn.scenarioPhase([]string{in["name"]})
+	case "mutexmisc":
+		rn.mutexPhase()
+	case "kmodel":
+		for i := 0; i < 3; i++ {
+			if rn.kernelModelRound(atoi("procs"), atoi("goroutines"), atoi("iters"), atoi("paths"), seed+uint64(i)) {
+				break
+			}
+		}
 	}
 }
 
